@@ -73,6 +73,7 @@ MUTANTS = {
         ('disconnect_wrong_slot', r'let client = self\.clients\[slot\]\.take\(\)\.unwrap\(\);', 'let client = self.clients[slot].clone().unwrap();'),
         ('timeout_comparison_flipped', r'\+ Duration::from_secs\(client\.timeout_seconds as u64\) < self\.current_time\)', '+ Duration::from_secs(client.timeout_seconds as u64) > self.current_time)'),
         ('mac_match_last_wins_address_ignored', r'return entry\.address == new_entry\.address;', 'return true;'),
+        ('pending_expiry_off_by_one', r'current_time\.as_secs\(\) > client\.expire_timestamp', 'current_time.as_secs() >= client.expire_timestamp'),
         ('payload_counter_not_advanced', r'(Some\(\(client\.sequence, &client\.send_key\)\)\)\?;\s+)client\.sequence \+= 1;', r'\1'),
     ],
     'U18': [
